@@ -142,6 +142,24 @@ def main(argv):
             nat_results.append(a.get(timeout=3600))
         conf = conf_async.get(timeout=600)
 
+        # the loader must be transparent for the source as it is now; if the conformance corpus behaves differently under the
+        # rewritten + shadowed package than natively (code using the buffer protocol on shadowed types, say), no deductive result of
+        # this run is trusted: discharged units are WITHHELD (undecided) and the native stand-ins decide.  Never a violation by itself.
+        loader_bad = (not conf.get('ok', False)) and conf.get('status') != 'ERROR' and conf.get('failures') and \
+            all('loader conformance' in f or 'loader corpus' in f for f in conf.get('failures'))
+        if loader_bad:
+            seen_ob = {}
+            for r in sym_results:
+                if r['status'] == 'DISCHARGED':
+                    seen_ob[r['oid']] = seen_ob.get(r['oid'], 0) + 1
+                    r['status'] = 'UNDECIDED'
+                    r['undecided'] = [{'reason': 'loader conformance failed for the current source: deductive result withheld', 'path': []}]
+                    r['withheld'] = seen_ob[r['oid']] > 2
+            print('LOADER-NOT-TRANSPARENT: the rewritten package differs from the native one on the conformance corpus; deductive '
+                  'results of this run are withheld, native stand-ins decide')
+            conf['ok'] = True
+            conf['loader_withheld'] = True
+
         # ---- triage of refuted / undecided symbolic units: native replay, then bounded search -------------------
         violations, known_hits, undecided_lines = [], [], []
         known = load_known()
@@ -189,6 +207,9 @@ def main(argv):
                                'trace': sr.get('trace'), 'cex': r['refuted'][0]}
                 r['replay'] = rep
                 violations.append(r)
+            elif r['status'] == 'UNDECIDED' and r.get('withheld'):
+                r['standin'] = 'not searched (sibling units of the same obligation were)'
+                undecided_lines.append(r)
             elif r['status'] == 'UNDECIDED':
                 sr = _get(npool.apply_async(_nat_task, (('search', r['oid'], r['case_idx'], max(o.samples, 300), seed),)), 900)
                 if not sr.get('ok', True):
